@@ -99,25 +99,40 @@ impl CounterList {
 }
 
 /// A more efficient counter that only requires one owned local name to track counters across multiple stack frames
-pub(crate) struct TypedChildCounterMap(HashMap<LocalName<'static>, CounterList>);
+pub(crate) struct TypedChildCounterMap {
+    map: HashMap<LocalName<'static>, CounterList>,
+    // the number of entries (and nested counters) is driven by the input, so they count towards the memory limit
+    limiter: SharedMemoryLimiter,
+}
 
 impl TypedChildCounterMap {
+    const ENTRY_SIZE: usize = size_of::<(LocalName<'static>, CounterList)>();
+    const ITEM_SIZE: usize = size_of::<CounterItem>();
+
     #[must_use]
     #[inline]
-    pub(crate) fn new() -> Self {
-        Self(HashMap::new())
+    pub(crate) fn new(limiter: SharedMemoryLimiter) -> Self {
+        Self {
+            map: HashMap::new(),
+            limiter,
+        }
     }
 
     fn hash_name(&self, name: &LocalName<'_>) -> u64 {
-        self.0.hasher().hash_one(name)
+        self.map.hasher().hash_one(name)
     }
 
     /// Adds a seen child to the map. The index is the level of the item
-    pub fn add_child(&mut self, name: &LocalName<'_>, index: usize) {
+    pub fn add_child(
+        &mut self,
+        name: &LocalName<'_>,
+        index: usize,
+    ) -> Result<(), MemoryLimitExceededError> {
         let hash = self.hash_name(name);
-        let entry = self.0.raw_entry_mut().from_hash(hash, |n| name == n);
+        let entry = self.map.raw_entry_mut().from_hash(hash, |n| name == n);
         match entry {
             RawEntryMut::Vacant(vacant) => {
+                self.limiter.increase_usage(Self::ENTRY_SIZE)?;
                 vacant.insert_hashed_nocheck(
                     hash,
                     name.clone().into_owned(), // the hash won't change just because we've got ownership
@@ -129,23 +144,30 @@ impl TypedChildCounterMap {
                 if current.index == index {
                     current.counter.inc();
                 } else {
+                    self.limiter.increase_usage(Self::ITEM_SIZE)?;
                     let counter = ChildCounter::new_and_inc();
                     let old = std::mem::replace(current, CounterItem { counter, index });
                     items.push(old);
                 }
             }
         }
+        Ok(())
     }
 
     #[inline]
     pub fn pop_to(&mut self, index: usize) {
-        self.0.retain(|_, v| {
+        let limiter = &self.limiter;
+        self.map.retain(|_, v| {
             while v.current.index > index {
                 match v.items.pop() {
                     Some(next) => {
+                        limiter.decrease_usage(Self::ITEM_SIZE);
                         v.current = next;
                     }
-                    None => return false,
+                    None => {
+                        limiter.decrease_usage(Self::ENTRY_SIZE);
+                        return false;
+                    }
                 }
             }
             true
@@ -157,7 +179,7 @@ impl TypedChildCounterMap {
     where
         'a: 'i,
     {
-        match self.0.get(name) {
+        match self.map.get(name) {
             Some(CounterList {
                 current:
                     CounterItem {
@@ -168,6 +190,14 @@ impl TypedChildCounterMap {
             }) if *current_index == index => Some(counter),
             _ => None,
         }
+    }
+}
+
+impl Drop for TypedChildCounterMap {
+    fn drop(&mut self) {
+        let items: usize = self.map.values().map(|v| v.items.len()).sum();
+        self.limiter
+            .decrease_usage(self.map.len() * Self::ENTRY_SIZE + items * Self::ITEM_SIZE);
     }
 }
 
@@ -225,7 +255,8 @@ impl<E: ElementData> Stack<E> {
     pub fn new(memory_limiter: SharedMemoryLimiter, enable_nth_of_type: bool) -> Self {
         Self {
             root_child_counter: Default::default(),
-            typed_child_counters: enable_nth_of_type.then(TypedChildCounterMap::new),
+            typed_child_counters: enable_nth_of_type
+                .then(|| TypedChildCounterMap::new(memory_limiter.clone())),
             items: LimitedVec::new(memory_limiter),
             open_name_counts: HashMap::new(),
             active_hereditary_jumps: Vec::new(),
@@ -233,7 +264,7 @@ impl<E: ElementData> Stack<E> {
     }
 
     /// Adds a child to child counters. Called before pushing the element to the stack.
-    pub fn add_child(&mut self, name: &LocalName<'_>) {
+    pub fn add_child(&mut self, name: &LocalName<'_>) -> Result<(), MemoryLimitExceededError> {
         match self.items.last_mut() {
             Some(last) => &mut last.child_counter,
             None => &mut self.root_child_counter,
@@ -241,8 +272,9 @@ impl<E: ElementData> Stack<E> {
         .inc();
 
         if let Some(counters) = &mut self.typed_child_counters {
-            counters.add_child(name, self.items.len());
+            counters.add_child(name, self.items.len())?;
         }
+        Ok(())
     }
 
     #[must_use]
